@@ -16,8 +16,12 @@ TRUSTED = [
     'C16: datetime arithmetic (now + 20 years, start + expire_sec) and strftime are CPython; the model starts from the calendar fields of the two instants; years outside 1000..9999 are outside the model',
     'C16: the signer is abstract as in C01 (its output is recorded); verification uses the real pycryptodomex verifiers in the oracle',
 ]
-RULE = ('certificates produced by self_sign, sign_req and derive_cert for random key names, issuer ids given as text or as '
-        'component, EC P-256/384/521, RSA-2048 and Ed25519 subject keys and issuer signers (plus HMAC and a synthetic signer '
+RULE = ('certificates produced by self_sign, sign_req and derive_cert for random key names (given as component list, URI '
+        'text or encoded Name; zero components, with/without KEY suffix), issuer ids given as text (incl. percent-escapes, '
+        'typed and alias forms; expected component computed from the URI scheme) or as component, a sweep of every kind '
+        'of year (weekday of 1 Jan x leap) x 29 Dec..3 Jan as requested start, requested end, now, now+10d, now+20y, month '
+        'ends, microseconds, UTC-aware starts, a machine zone other than UTC, total certificate size swept across 253 and '
+        '65536 for every signer, EC P-256/384/521, RSA-2048 and Ed25519 subject keys and issuer signers (plus HMAC and a synthetic signer '
         'sweeping reserved/real signature lengths across 253), validity start times at year / month / leap-day boundaries '
         'and durations up to 10^9 s, with the clock patched. Compared with the model: wire bytes, signed bytes, certificate '
         'name, every parsed field. Oracle: well-formed Data, name = key-name/issuer/version, Content = key, ContentType KEY, '
@@ -36,32 +40,173 @@ DESIGN_REF = 'DESIGN.md section 7, C16'
 ISSUERS = [['ec256'], ['ec256'], ['ec384'], ['ec521'], ['rsa2048'], ['ed25519'], ['hmac'], ['digest', 0]]
 
 
+def _leap(y):
+    return y % 4 == 0 and (y % 100 != 0 or y % 400 == 0)
+
+
+def _mdays(y, mo):
+    return [31, 29 if _leap(y) else 28, 31, 30, 31, 30, 31, 31, 30, 31, 30, 31][mo - 1]
+
+
+def _kind_years():
+    """one year of every kind (weekday of 1 January x leap / common = 14 kinds): the ISO week-year, %U/%W week numbers
+    and day-of-year arithmetic differ between kinds exactly on 29 Dec - 3 Jan"""
+    kinds = {}
+    for y in range(1996, 2040):
+        kinds.setdefault((_dt.date(y, 1, 1).weekday(), _leap(y)), y)
+    return [kinds[k] for k in sorted(kinds)]
+
+
+KIND_YEARS = _kind_years()
+BOUNDARY_DAYS = [(12, 29), (12, 30), (12, 31), (1, 1), (1, 2), (1, 3)]
+HMS = [(0, 0, 0), (23, 59, 59), (12, 0, 0), (0, 0, 1), (23, 59, 0)]
+ISSUER_TEXTS = ['ca', 'NDNCERT', 'a-b_c', 'root.1', 'a%20b', '%00%ff', 'x%2Fy', '32=issuer', '255=%01%02', 'caf%C3%A9',
+                '8=x', 'v=5', '']
+FAST_ISSUERS = [['ed25519'], ['hmac'], ['digest', 0], ['ec256']]
+
+
 def _rand_time(rng):
     r = rng.random()
     if r < 0.25:
-        y = rng.choice([1000, 1999, 2000, 2024, 2038, 9998])
+        y = rng.choice([1000, 1900, 1999, 2000, 2024, 2038, 2100, 9998])
         mo, d = rng.choice([(1, 1), (12, 31), (2, 28), (3, 1)])
-        if y % 4 == 0 and (y % 100 != 0 or y % 400 == 0) and rng.random() < 0.5:
+        if _leap(y) and rng.random() < 0.5:
             mo, d = 2, 29
         return [y, mo, d, rng.choice([0, 23]), rng.choice([0, 59]), rng.choice([0, 59])]
+    if r < 0.40:
+        # 29 Dec - 3 Jan of a year of any kind
+        y = rng.choice(KIND_YEARS) + 28 * rng.choice([-1, 0, 0, 1])
+        mo, d = rng.choice(BOUNDARY_DAYS)
+        return [y, mo, d] + list(rng.choice(HMS))
+    if r < 0.55:
+        # the last days of a month
+        y, mo = rng.randint(1000, 9000), rng.randint(1, 12)
+        return [y, mo, _mdays(y, mo) - rng.choice([0, 0, 1])] + list(rng.choice(HMS))
     return [rng.randint(1000, 9000), rng.randint(1, 12), rng.randint(1, 28), rng.randint(0, 23), rng.randint(0, 59),
             rng.randint(0, 59)]
 
 
+def _extras(rng):
+    """dimensions added by hardening (absent keys mean the old behaviour, so old replays stay valid)"""
+    return {'tz': rng.choice([None, None, 0]), 'us': rng.choice([0, 0, 1, 500000, 999999]),
+            'local_off': rng.choice([-11, -5, 1, 9, 14]), 'kn_form': rng.choice(['list', 'list', 'str', 'wire'])}
+
+
+def _base(rng, **kw):
+    c = {'fn': 'derive', 'issuer': ['ed25519'], 'subject': 'raw', 'raw_len': 32, 'key_name': ['08034b4559', '08026b31'],
+         'issuer_id': ['text', 'ca'], 'start': [2020, 6, 1, 0, 0, 0], 'expire': 3600, 'now': [2020, 6, 1, 0, 0, 0],
+         'ts': rng.randint(0, 2 ** 48), 'seed': rng.getrandbits(32), 'tz': None, 'us': 0, 'local_off': 9, 'kn_form': 'list'}
+    c.update(kw)
+    return c
+
+
+def _secs(a, b):
+    return int((_dt.datetime(*b) - _dt.datetime(*a)).total_seconds())
+
+
+def _sweep(rng, tier):
+    """every kind of year x every day of 29 Dec - 3 Jan, as requested start AND as requested end of derive_cert, as
+    `now` and as now + 10 days of sign_req, as now + 20 years of self_sign"""
+    n = len(KIND_YEARS)
+    for i, y in enumerate(KIND_YEARS):
+        for j, (mo, d) in enumerate(BOUNDARY_DAYS):
+            a = [y, mo, d] + list(rng.choice(HMS))
+            mo2, d2 = BOUNDARY_DAYS[(j + 3) % 6]
+            y2 = KIND_YEARS[(i + 5) % n]
+            while (y2, mo2, d2) <= (y, mo, d):
+                y2 += 28
+            b = [y2, mo2, d2] + list(rng.choice(HMS))
+            common = {'issuer': rng.choice(FAST_ISSUERS), 'tz': rng.choice([None, 0]), 'us': rng.choice([0, 999999]),
+                      'issuer_id': rng.choice([['text', 'ca'], ['comp', '0802' + b'ca'.hex()]]),
+                      'kn_form': rng.choice(['list', 'str', 'wire'])}
+            yield _base(rng, fn='derive', start=a, expire=_secs(a, b), **common)
+            if tier != 'quick' or (i + j) % 2 == 0:
+                yield _base(rng, fn='req', now=a, **common)
+            if tier != 'quick' or (i + j) % 2 == 1:
+                back = _dt.datetime(*a) - _dt.timedelta(days=10)
+                yield _base(rng, fn='req', now=_fields(back), **common)
+            yield _base(rng, fn='self', now=[y - 20] + a[1:], **common)
+
+
+def _measure(case):
+    try:
+        impl = run_impl(dict(case, raw_len=0))
+        return len(impl['made'][1]) // 2 if impl['made'][0] == 'ok' else None
+    except Exception:      # noqa - steering only
+        return None
+
+
+def _sizes(rng, tier):
+    """total certificate size swept across 253 and 65536 for every kind of signer (the content is a raw key of the
+    length that puts the whole certificate there; ECDSA signers then shrink across the boundary by chance)"""
+    signers = [['ec256'], ['ec384'], ['ec521'], ['rsa2048'], ['ed25519'], ['hmac'], ['digest', 0],
+               ['synth', 72, 70], ['synth', 72, 64], ['synth', 8, 0]]
+    for rep in range(1 if tier == 'quick' else 4):
+        for sg in signers:
+            fn = rng.choice(['derive', 'derive', 'self', 'req'])
+            kn = [c.hex() for c in PK.rand_name(rng)[:2] if len(c) < 40] + ['08034b4559', '0801' + '%02x' % rng.randrange(256)]
+            proto = _base(rng, fn=fn, issuer=sg, key_name=kn, start=_rand_time(rng), now=[2024, 12, 31, 23, 59, 59],
+                          issuer_id=rng.choice([['text', 'ca'], ['comp', PK.rand_comp(rng).hex()]]))
+            l0 = _measure(proto)
+            if l0 is None:
+                l0 = 150
+            for target, deltas in ((253, range(-5, 5)), (65536, range(-10, 3))):
+                deltas = list(deltas)
+                if tier == 'quick' and target == 65536:
+                    deltas = rng.sample(deltas, 3)
+                for dl in deltas:
+                    n = target + dl - l0
+                    if target == 65536:
+                        n -= 2 + (4 if l0 < 253 else 2)      # Content Length 1 -> 3 bytes, outer Length 1|3 -> 5 bytes
+                    if n >= 0:
+                        yield dict(proto, raw_len=n, ts=rng.randint(0, 2 ** 48), seed=rng.getrandbits(32))
+
+
+def _random_case(rng, tier):
+    fn = rng.choice(['derive', 'derive', 'derive', 'self', 'req'])
+    issuer = rng.choice(ISSUERS) if rng.random() < 0.8 else PK.rand_synth(rng)
+    if tier == 'quick' and issuer[0] == 'rsa2048' and rng.random() < 0.6:
+        issuer = ['ec256']
+    subject = rng.choice(['ec256', 'ec384', 'ec521', 'ed25519', 'rsa2048', 'raw'])
+    r = rng.random()
+    if r < 0.05:
+        key_name = []                                               # a key name of zero components
+    elif r < 0.10:
+        key_name = [c.hex() for c in PK.rand_name(rng)]             # no KEY / key-id suffix
+    else:
+        key_name = [c.hex() for c in PK.rand_name(rng)] + ['08034b4559', PK.rand_comp(rng).hex()]
+    start = _rand_time(rng)
+    expire = rng.choice([0, 1, 59, 86400, 86400 * 365, 10 ** 9, rng.randint(1, 10 ** 7)])
+    if rng.random() < 0.3:
+        # an end instant on one of the special days
+        end = _rand_time(rng)
+        while end[0] < start[0] + 1:
+            end[0] += 28
+        if end[1:3] == [2, 29] and not _leap(end[0]):
+            end[2] = 28
+        if end[0] <= 9999:
+            expire = _secs(start, end)
+    case = {'fn': fn, 'issuer': issuer, 'subject': subject, 'raw_len': rng.choice([0, 1, 91, 252, 253, 300]),
+            'key_name': key_name, 'issuer_id': rng.choice([['text', rng.choice(ISSUER_TEXTS)],
+                                                           ['comp', PK.rand_comp(rng).hex()]]),
+            'start': start, 'expire': expire,
+            'now': _rand_time(rng), 'ts': rng.choice([0, 255, 256, 65535, 65536, 2 ** 32 - 1, 2 ** 32,
+                                                      rng.randint(0, 2 ** 48), rng.randint(0, 2 ** 48)]),
+            'seed': rng.getrandbits(32)}
+    case.update(_extras(rng))
+    if case['kn_form'] == 'str' and any(c[:2] in ('32', '34', '36', '38', '3a') for c in key_name):
+        # naming-convention components with a value that is not a number have no URI text (Name.to_str/from_str is
+        # another property's business): hand those over as an encoded Name instead
+        case['kn_form'] = 'wire'
+    return case
+
+
 def cases(rng, tier):
+    yield from _sweep(rng, tier)
+    yield from _sizes(rng, tier)
     n = 150 if tier == 'quick' else 4000
     for _ in range(n):
-        fn = rng.choice(['derive', 'derive', 'derive', 'self', 'req'])
-        issuer = rng.choice(ISSUERS) if rng.random() < 0.8 else PK.rand_synth(rng)
-        if tier == 'quick' and issuer[0] == 'rsa2048' and rng.random() < 0.6:
-            issuer = ['ec256']
-        subject = rng.choice(['ec256', 'ec384', 'ec521', 'ed25519', 'rsa2048', 'raw'])
-        key_name = [c.hex() for c in PK.rand_name(rng)] + ['08034b4559', PK.rand_comp(rng).hex()]
-        yield {'fn': fn, 'issuer': issuer, 'subject': subject, 'raw_len': rng.choice([0, 1, 91, 252, 253, 300]),
-               'key_name': key_name, 'issuer_id': rng.choice([['text', rng.choice(['ca', 'NDNCERT', 'a-b_c', 'root.1'])],
-                                                              ['comp', PK.rand_comp(rng).hex()]]),
-               'start': _rand_time(rng), 'expire': rng.choice([0, 1, 59, 86400, 86400 * 365, 10 ** 9, rng.randint(1, 10 ** 7)]),
-               'now': _rand_time(rng), 'ts': rng.randint(0, 2 ** 48), 'seed': rng.getrandbits(32)}
+        yield _random_case(rng, tier)
 
 
 def shrink(case):
@@ -91,6 +236,43 @@ def _fields(dt):
     return [dt.year, dt.month, dt.day, dt.hour, dt.minute, dt.second]
 
 
+_ALIASES = {'seg': 50, 'off': 52, 'v': 54, 't': 56, 'seq': 58}
+
+
+def _nat_min(n):
+    """NonNegativeInteger: 1, 2, 4 or 8 bytes, the shortest that fits"""
+    for w in (1, 2, 4, 8):
+        if n < 1 << (8 * w):
+            return n.to_bytes(w, 'big')
+    raise ValueError(n)
+
+
+def _uri_comp(text):
+    """the name component an NDN-URI component text denotes (written from the URI scheme, not with the library):
+    optional `<type>=` (a number, or a naming-convention alias with a decimal value), percent-escapes decoded"""
+    typ, val = 8, text
+    if '=' in text:
+        head, val = text.split('=', 1)
+        if head in _ALIASES:
+            return T.tl(_ALIASES[head]) + T.tl(len(_nat_min(int(val)))) + _nat_min(int(val))
+        typ = int(head)
+    out, i = bytearray(), 0
+    while i < len(val):
+        if val[i] == '%':
+            out.append(int(val[i + 1:i + 3], 16))
+            i += 3
+        else:
+            out.append(ord(val[i]))
+            i += 1
+    return T.tl(typ) + T.tl(len(out)) + bytes(out)
+
+
+def _version_comp(ts):
+    """version component of the naming conventions: type 54, NonNegativeInteger"""
+    v = _nat_min(ts)
+    return T.tl(54) + T.tl(len(v)) + v
+
+
 def run_impl(case):
     from ndn.app_support import security_v2 as sv
     from ndn import encoding as enc
@@ -98,20 +280,30 @@ def run_impl(case):
     inner = PK.make_signer(case['issuer'])
     rec = PK.Recorder(inner)
     key_name = [bytes.fromhex(c) for c in case['key_name']]
+    form = case.get('kn_form', 'list')
+    if form == 'str':
+        key_name = enc.Name.to_str(key_name)
+    elif form == 'wire':
+        key_name = bytes(enc.Name.to_bytes(key_name))
     pub = _pub_key(case)
-    now = _dt.datetime(*case['now'], tzinfo=_dt.timezone.utc)
+    us = case.get('us', 0)
+    now = _dt.datetime(*case['now'], us, tzinfo=_dt.timezone.utc)
+    local_off = case.get('local_off')
 
     class _DT(_dt.datetime):
         @classmethod
         def now(cls, tz=None):
-            return now
+            # the machine's zone is UTC+local_off hours: asking for the local time gives another wall-clock reading
+            if tz is None:
+                return now if local_off is None else (now + _dt.timedelta(hours=local_off)).replace(tzinfo=None)
+            return now.astimezone(tz)
     old = (sv.datetime, sv.timestamp)
     sv.datetime, sv.timestamp = _DT, (lambda: case['ts'])
     try:
         try:
             if case['fn'] == 'self':
                 name, wire = sv.self_sign(key_name, pub, rec)
-                issuer = bytes(sv.SELF_COMPONENT)
+                issuer = b'\x08\x04self'         # NDN certificate naming: the issuer id of a self-signed certificate
                 t0 = [1970, 1, 1, 0, 0, 0]
                 t1 = _fields(now.replace(year=now.year + 20))
             elif case['fn'] == 'req':
@@ -122,9 +314,9 @@ def run_impl(case):
             else:
                 kind, val = case['issuer_id']
                 iid = val if kind == 'text' else bytes.fromhex(val)
-                start = _dt.datetime(*case['start'])
+                start = _dt.datetime(*case['start'], us, tzinfo=_dt.timezone.utc if case.get('tz') == 0 else None)
                 name, wire = sv.derive_cert(key_name, iid, pub, rec, start, case['expire'])
-                issuer = bytes(enc.Component.from_str(val)) if kind == 'text' else bytes.fromhex(val)
+                issuer = _uri_comp(val) if kind == 'text' else bytes.fromhex(val)
                 t0 = case['start']
                 t1 = _fields(start + _dt.timedelta(seconds=case['expire']))
             wire = bytes(wire)
@@ -140,7 +332,7 @@ def run_impl(case):
     finally:
         sv.datetime, sv.timestamp = old
     out.update({'issuer': issuer.hex(), 't0': t0, 't1': t1, 'pub': pub.hex(),
-                'version': bytes(enc.Component.from_version(case['ts'])).hex(),
+                'version': _version_comp(case['ts']).hex(),
                 'reserved': rec.reserved, 'sig': rec.sig.hex() if rec.sig is not None else None,
                 'covered': b''.join(rec.covered).hex() if rec.covered is not None else None})
     from ndn.encoding.ndn_format_0_3 import SignatureInfo
@@ -184,7 +376,7 @@ def run_impl(case):
 def model_line(case, impl):
     if impl['made'][0] != 'ok' or impl.get('sig') is None:
         return None
-    kn = ','.join(T.hx(bytes.fromhex(c)) for c in case['key_name'])
+    kn = ','.join(T.hx(bytes.fromhex(c)) for c in case['key_name']) or '.'
     t0 = ','.join(str(x) for x in impl['t0'])
     t1 = ','.join(str(x) for x in impl['t1'])
     if not (1000 <= impl['t0'][0] <= 9999 and 1000 <= impl['t1'][0] <= 9999):
@@ -235,6 +427,8 @@ def oracle(case, impl):
         from ndn.encoding import Name
         if c['key_locator'] != [bytes(x).hex() for x in Name.from_str(want_kl)]:
             return 'key locator is not the one configured in the issuing signer'
+    elif c['key_locator'] is not None:
+        return 'the certificate names a key locator although the issuing signer configures none'
     if impl['verify'] is False or isinstance(impl['verify'], str):
         return f"signature does not verify under the issuing key ({impl['verify']})"
     if impl['parse_data']['SV'] != impl['sig'] or impl['parse_data']['SC'] != impl['covered']:
@@ -251,6 +445,23 @@ def tags(case, impl):
     if impl['made'][0] == 'ok':
         n = len(impl['made'][1]) // 2
         t.append('size:' + ('<253' if n < 253 else '253..259' if n < 260 else '>=260'))
+        for b in (253, 65536):
+            if b - 6 <= n <= b + 8:
+                t.append('size-near-%d:%s' % (b, case['issuer'][0]))
+        if impl.get('reserved') and impl.get('sig') is not None and impl['reserved'] * 2 != len(impl['sig']):
+            t.append('shrunk')
+            if n < 253 <= n + impl['reserved'] - len(impl['sig']) // 2:
+                t.append('shrunk-across-253')
+        for key in ('t0', 't1'):
+            if impl[key][1:3] in ([12, 29], [12, 30], [12, 31], [1, 1], [1, 2], [1, 3]):
+                t.append(key + ':29dec-3jan')
+            elif impl[key][2] >= 29:
+                t.append(key + ':day>=29')
+        if case['fn'] == 'derive':
+            t.append('issuer-id:' + case['issuer_id'][0] + ('-escaped' if '%' in case['issuer_id'][1] or '=' in case['issuer_id'][1] else ''))
+            t.append('tz:' + str(case.get('tz')))
+        t.append('kn-form:' + case.get('kn_form', 'list'))
+        t.append('kn-comps:%d' % min(len(case['key_name']), 3))
         t.append('verify:' + str(impl['verify']))
     return t
 
